@@ -53,3 +53,36 @@ func (c *vCtx) cancel(deadline bool) {
 }
 
 var _ context.Context = (*vCtx)(nil)
+
+// vTok is a pointer payload with identity.
+type vTok struct{ id int }
+
+// vPayload returns an arbitrary payload of one of several dynamic kinds (forks on the kind;
+// scalar contents stay symbolic).
+func vPayload(label string) any {
+	switch vChoice(label+".kind", 5) {
+	case 0:
+		return nil
+	case 1:
+		return vNondet[int](label + ".int")
+	case 2:
+		return vNondet[string](label + ".str")
+	case 3:
+		return &vTok{id: 1}
+	default:
+		return map[string]any{"k": vNondet[int](label + ".mapv")}
+	}
+}
+
+// vSimpleNode is a plain node that succeeds and returns a fixed action.
+type vSimpleNode struct {
+	act    Action
+	visits int
+}
+
+func (n *vSimpleNode) Prep(ctx context.Context, s *SharedStore) (any, error) { return nil, nil }
+func (n *vSimpleNode) Exec(ctx context.Context, p any) (any, error)          { return nil, nil }
+func (n *vSimpleNode) Post(ctx context.Context, s *SharedStore, p, e any) (Action, error) {
+	n.visits++
+	return n.act, nil
+}
